@@ -336,7 +336,13 @@ def write_evidence(mod, prop, tier, seed, cases, results, functions, metas, know
   configs = set()
   for r in decided:
     if r['expect'] == 'unsat':
-      configs.add(json.dumps(r.get('config'), sort_keys=True, default=str))
+      cfg = r.get('config')
+      if cfg:
+        configs.add(json.dumps(cfg, sort_keys=True, default=str))
+      else:
+        # one case covering many labelled configurations (C11, C16, C17): the label inside [...] identifies it
+        q = r['query']
+        configs.add('%s|%s' % (r['case'], q[q.index('[') + 1:q.rindex(']')] if '[' in q and ']' in q else q))
   by = {}
   for r in results:
     k = '%s:%s' % (r.get('kind', 'main'), r['verdict'])
@@ -368,9 +374,10 @@ def write_evidence(mod, prop, tier, seed, cases, results, functions, metas, know
       coverage=dict(
           evaluations=len(decided),
           distinct_nontrivial=len(configs),
-          rule=meta.get('rule', 'one encoding per enumerated configuration; a configuration is counted when at least '
-                                'one property query over fully symbolic inputs was decided (unsat/sat) for it; '
-                                'configurations are distinct by their parameter dictionary'),
+          rule=meta.get('rule', 'one encoding per enumerated configuration; evaluations = solver/structural queries decided '
+                                '(unsat/sat); distinct_nontrivial = number of distinct configurations (parameter dictionary of '
+                                'the case, or the configuration label of the query where one case covers a labelled catalogue) '
+                                'for which at least one property query (not a twin) was decided'),
           samples=samples,
           exhaustive=False,
           technique=meta.get('technique', 'symbolic execution of the traced TensorFlow graph + z3'),
